@@ -13,6 +13,11 @@ pub fn all() -> Vec<(&'static str, fn())> {
         ("c01_raw_value_not_json", c01_raw_value_not_json),
         ("c01_scalar_and_iterator_same_name", c01_scalar_and_iterator_same_name),
         ("c13_recursive_stream_values_from_current_data", c13_recursive_stream_values_from_current_data),
+        ("c27_codec_tag_with_dropped_high_bits", c27_codec_tag_with_dropped_high_bits),
+        ("c01_lambda_non_ascii_field_name", c01_lambda_non_ascii_field_name),
+        ("c01_fail_with_u64_error_code", c01_fail_with_u64_error_code),
+        ("c01_nested_fold_next_outer_inside_inner", c01_nested_fold_next_outer_inside_inner),
+        ("c01_fold_next_orders", c01_fold_next_orders),
     ]
 }
 
@@ -210,7 +215,10 @@ fn c01_scalar_and_iterator_same_name() {
         r#"(seq (ap 1 $s) (seq (par (ap 1 x) (null)) (fold $s x (seq (call "p" ("s" "f") [x]) (next x)))))"#,
     ];
     for s in scripts {
-        let o = run(s, vec![], vec![], "A", no_call_results());
+        let o1 = run(s, vec![], vec![], "A", no_call_results());
+        let mut m = CallResults::new();
+        m.insert("1".to_string(), CallServiceResult::ok(&serde_json::json!([1, 2])));
+        let o = run(s, o1.data.clone(), vec![], "A", CallResultsRepr.serialize(&m).unwrap());
         print!("{s}\n   ");
         report(&o);
     }
@@ -277,4 +285,74 @@ fn c13_recursive_stream_values_from_current_data() {
         executed_stream_results(&ta),
         executed_stream_results(&tb)
     );
+}
+
+/// Kani (c27_multiformat_parse_total): unsigned_varint::decode::u32 drops the bits of a fifth byte that do
+/// not fit u32, so the 5-byte tag 81 84 80 80 10 (value 0x1_0000_0201) is read as the msgpack codec 0x0201.
+fn c27_codec_tag_with_dropped_high_bits() {
+    use air_interpreter_sede::FromSerialized;
+    let mut m = CallResults::new();
+    m.insert("1".to_string(), CallServiceResult::ok(&serde_json::json!("x")));
+    let good = CallResultsRepr.serialize(&m).unwrap();
+    let good: Vec<u8> = good.to_vec();
+    println!("honest prefix {:02x?}", &good[..2]);
+    // replace the 2-byte tag 81 04 by a 5-byte tag of a value that does not fit u32
+    let mut forged = vec![0x81u8, 0x84, 0x80, 0x80, 0x10];
+    forged.extend_from_slice(&good[2..]);
+    let r = CallResultsRepr.deserialize(&forged);
+    println!("decoding a payload tagged 0x1_0000_0201: {:?}", r.as_ref().map(|m| m.len()));
+    assert!(r.is_err(), "C27: a payload tagged with another codec was decoded as msgpack");
+}
+
+/// found by a seeding sub-agent: the lambda lexer slices the field name at end_pos + 1, not a char boundary
+fn c01_lambda_non_ascii_field_name() {
+    let air = "(seq (call \"A\" (\"s\" \"f\") [] x) (call \"A\" (\"s\" \"g\") [x.$.\u{e9}]))";
+    let o = run(air, vec![], vec![], "A", no_call_results());
+    report(&o);
+}
+
+/// found by a seeding sub-agent: (fail x) with error_code = u64::MAX: as_i64().unwrap() guarded by is_i64() | is_u64()
+fn c01_fail_with_u64_error_code() {
+    let air = r#"(seq (call "A" ("s" "f") [] x) (fail x))"#;
+    let serve = |_: &serde_json::Value| serde_json::json!({"error_code": 18446744073709551615u64, "message": "m"});
+    let o1 = run(air, vec![], vec![], "A", no_call_results());
+    let mut m = CallResults::new();
+    m.insert("1".to_string(), CallServiceResult::ok(&serve(&serde_json::json!([]))));
+    let o2 = run(air, o1.data.clone(), vec![], "A", CallResultsRepr.serialize(&m).unwrap());
+    report(&o2);
+}
+
+/// found by a seeding sub-agent: `next` of the OUTER stream fold inside the inner scalar fold: the lore
+/// constructor queue is asked for its current element while empty (subtract overflow)
+fn c01_nested_fold_next_outer_inside_inner() {
+    let air = r#"
+    (seq
+        (seq (ap 1 $s) (call "A" ("s" "arr") [] arr))
+        (fold $s i (fold arr j (par (next j) (next i)))))"#;
+    let o1 = run(air, vec![], vec![], "A", no_call_results());
+    let mut m = CallResults::new();
+    m.insert("1".to_string(), CallServiceResult::ok(&serde_json::json!([1, 2])));
+    let o2 = run(air, o1.data.clone(), vec![], "A", CallResultsRepr.serialize(&m).unwrap());
+    report(&o2);
+}
+
+/// Kani (c01_fold_fsm_any_order_after_start): [iteration start, next-back, next-forward, generation end]
+/// underflows PositionsTracker::len.  Try scripts that could produce such an order.
+fn c01_fold_next_orders() {
+    let scripts = [
+        r#"(seq (seq (seq (ap 1 $s) (ap 2 $s)) (call "A" ("s" "arr") [] arr)) (fold $s i (fold arr j (par (next j) (next i)))))"#,
+        r#"(seq (seq (seq (ap 1 $s) (seq (ap 2 $s) (ap 3 $s))) (call "A" ("s" "arr") [] arr)) (fold $s i (fold arr j (par (next j) (next i)))))"#,
+        r#"(seq (seq (seq (ap 1 $s) (ap 2 $s)) (call "A" ("s" "arr") [] arr)) (fold $s i (fold arr j (par (next i) (next j)))))"#,
+        r#"(seq (seq (seq (ap 1 $s) (ap 2 $s)) (call "A" ("s" "arr") [] arr)) (fold $s i (fold arr j (seq (next j) (next i)))))"#,
+        r#"(seq (seq (seq (ap 1 $s) (ap 2 $s)) (call "A" ("s" "arr") [] arr)) (fold $s i (fold arr j (seq (next i) (next j)))))"#,
+        r#"(seq (seq (seq (ap 1 $s) (ap 2 $s)) (call "A" ("s" "arr") [] arr)) (fold $s i (fold arr j (xor (seq (next i) (fail 1 "x")) (next j)))))"#,
+    ];
+    for s in scripts {
+        let o1 = run(s, vec![], vec![], "A", no_call_results());
+        let mut m = CallResults::new();
+        m.insert("1".to_string(), CallServiceResult::ok(&serde_json::json!([1, 2])));
+        let o = run(s, o1.data.clone(), vec![], "A", CallResultsRepr.serialize(&m).unwrap());
+        print!("{s}\n   ");
+        report(&o);
+    }
 }
